@@ -87,6 +87,22 @@ def gen(c):
         for d in (1, 2, 256, (1 << 64) - 1):
             s2 = ((int.from_bytes(seq, "big") + d) % (1 << 64)).to_bytes(8, "big")
             add("seq:tls13:len%d:+%d" % (n, d), seq=s2, msg=b13, touched=1, **base13)
+    # ---- records with a right MAC whose padding is not uniform (the forger knows the keys; TLS asks for every padding octet to equal the padding length):
+    # one padding byte off at the first / a middle / the last-but-one position, for short, block-sized and multi-block paddings ----
+    for n in (0, 5, 20):
+        k, mk, iv16, seq = rb(16), rb(32), rb(16), rng.choice(seqs)
+        payload = rb(n)
+        mac = K.hmac(T, "sm3", mk, bytes(seq) + bytes(HDR_TLS12) + len(payload).to_bytes(2, "big") + bytes(payload))
+        base_pl = 16 - (n + 32) % 16
+        for extra in (0, 16, 48) + (() if c.quick else (112, 240 - base_pl if 240 - base_pl > 0 and (240 - base_pl) % 16 == 0 else 224)):
+            pl = base_pl + extra
+            if pl < 2 or pl > 256:
+                continue
+            for j in sorted({0, pl // 2, pl - 2}):
+                pad = bytearray([pl - 1]) * pl
+                pad[j] ^= 0x01 if j % 2 else 0x80
+                add("badpad:cbc:len%d:pad%d:byte%d" % (n, pl, j), f="tls_cbc_dec", api="oneshot", key=k, mackey=mk, seq=seq, hdr3=HDR_TLS12,
+                    msg=iv16 + K.cbc_enc(T, "sm4", k, iv16, bytes(payload) + mac + bytes(pad)), touched=1)
     # ---- forged all-padding plaintexts (the forger knows the keys): must be refused, and must not crash ----
     for n in ((16, 32, 48, 64, 272) if c.quick else (16, 32, 48, 64, 80, 96, 112, 256, 272, 288)):
         k, mk, iv, iv16, seq = rb(16), rb(32), rb(12), rb(16), rng.choice(seqs)
